@@ -60,7 +60,9 @@ func checkUpdate(c updCase) *vt.Fail {
 	comment, files := archiveFiles(orig)
 	seen := map[string]bool{}
 	for _, f := range files {
-		if seen[f.Name] || strings.ContainsAny(f.Name, "$") {
+		// (an entry name may refer to the work directory - the archive then names the file $WORK/..., and that is the name
+		// the rewritten archive has to keep; other references are not used)
+		if seen[f.Name] || strings.ContainsAny(strings.TrimPrefix(f.Name, "$WORK/"), "$") {
 			last.skipped = "duplicate or expanding entry name"
 			return nil
 		}
@@ -265,7 +267,7 @@ func trunc(s string, n int) string {
 
 // ---- generator ----
 
-var entryNames = []string{"golden", "want.txt", "exp/out.golden", "stderr.golden", "b.txt", "data/x", "exp/golden", "data/want.txt", "my golden.txt", "exp dir/é.golden"}
+var entryNames = []string{"golden", "want.txt", "exp/out.golden", "stderr.golden", "b.txt", "data/x", "exp/golden", "data/want.txt", "my golden.txt", "exp dir/é.golden", "$WORK/abs.golden", "$WORK/sub/abs2.golden"}
 var texts = []string{"hello out\n", "alpha\nbeta\n", "", "one two\n", "line\nwith $HOME\n", "warning: something\n", "\n\nblank lines around\n\n", "  indented  \n", "\n", ">looks quoted\n>second line\n", ">\n"}
 var actuals = []string{`hello out\n`, `alpha\nbeta\n`, `changed text\n`, `one two\n`, `no final newline`, `-- x --\nfoo\n`, `foo\n-- x --`, `cr\r\n`, "bad\xffutf8\\n", `>already quoted\n`, `a\n-- y --\nb\n`, "", `-- x --\n\xff\n`}
 
@@ -285,6 +287,9 @@ func esc(s string) string {
 func q(w string) string {
 	if w == "" {
 		return "''"
+	}
+	if strings.HasPrefix(w, "$WORK/") && !strings.ContainsAny(w[1:], " \t'#$") {
+		return w // a reference to the work directory has to stay outside quotes to mean it
 	}
 	if strings.ContainsAny(w, " \t'#$") {
 		return "'" + strings.ReplaceAll(w, "'", "''") + "'"
@@ -348,6 +353,16 @@ func genUpdate(t *rapid.T) updCase {
 				act := rapid.SampledFrom(actuals).Draw(t, "actual")
 				lines = append(lines, "mkdir elsewhere", "cd elsewhere", "exec vmain emit -o "+q(act), "cmp stdout "+q("../"+e.name), "cd $WORK")
 			}
+		case 10:
+			if rapid.Bool().Draw(t, "unreadable") {
+				// the first operand exists but cannot be read as a file (a directory): nothing was compared, so nothing
+				// may be stored
+				nfile++
+				d := fmt.Sprintf("adir%d", nfile)
+				lines = append(lines, "mkdir "+d, "cmp "+d+" "+q(e.name))
+				break
+			}
+			fallthrough
 		default:
 			lines = append(lines, rapid.SampledFrom([]string{"exists " + q(e.name), "# a phase comment", "", "! exists nosuchfile", "grep . " + q(e.name)}).Draw(t, "filler"))
 		}
